@@ -49,8 +49,19 @@ PathFrom(p0, st) == LET RECURSIVE P(_, _)
 Paths == {PathFrom(<<10, 10>>, st) : st \in UNION {[1..n -> Steps] : n \in 1..3}}
 Queries == {<<10, 10>>, <<0, 0>>, <<13, 16>>, <<12, 11>>, <<30, 5>>, <<14, 12>>}
 LineCases == {[kind |-> "line", path |-> p, q |-> q] : p \in {x \in Paths : HashSp([i \in 1..Len(x) |-> [rev |-> x[i][1] % 2 = 0, k |-> x[i][2] % 3, closed |-> TRUE]]) % MS = 0}, q \in Queries}
+(* points one lattice step off a long oblique segment: the segment runs from (0,0) to k (n+1, n), the point is
+   (1,1) + j (n+1, n), so twice the triangle area is exactly 1 and the distance is 1 / |segment| - tiny against the
+   coordinates.  The exact squared distance travels with the case; the harness reports the error of the real Distance
+   relative to the size of the coordinates. *)
+NearSeg(n, k, j, sw, rv) == LET a == <<0, 0>>
+                                b == <<k * (n + 1), k * n>>
+                                p == <<1 + j * (n + 1), 1 + j * n>>
+                                f(v) == IF sw THEN <<v[2], v[1]>> ELSE v
+                            IN [path |-> IF rv THEN <<f(b), f(a)>> ELSE <<f(a), f(b)>>, q |-> f(p)]
+NearCases == {[kind |-> "near", path |-> x.path, q |-> x.q, d2 |-> Dist2PointSeg(x.q, x.path[1], x.path[2])] :
+                x \in {NearSeg(n, k, j, sw, rv) : n \in {30, 1000}, k \in {2, 10}, j \in {0, 1}, sw \in BOOLEAN, rv \in BOOLEAN}}
 BufferCases == [kind : {"buffer"}, c : {<<0, 0>>, <<3, -2>>}, r : {1, 2, 5}, n : {3, 4, 5, 8, 64}]
 
-GenInit == c \in AreaCases \cup LineCases \cup BufferCases /\ PrintT(ToJson(c))
+GenInit == c \in AreaCases \cup LineCases \cup NearCases \cup BufferCases /\ PrintT(ToJson(c))
 GenSpec == GenInit /\ [][UNCHANGED c]_c
 =============================================================================
